@@ -347,11 +347,13 @@ def inner_outer_cases(tier, cfg, t):
 # ---------------------------------------------------------------------------------------------------------------------
 def configs(tier):
     if tier == "quick":
-        return [Config(isa=i) for i in MAIN3] + [Config(isa="A2", std="17")]
+        return [Config(isa=i) for i in MAIN3] + [Config(isa="A2", std="17"), Config(isa="A2", std="17", defs=("CONTRACT_OPT=-1",))]
     cfgs = [Config(isa=i) for i in ALL_ISAS]
     cfgs += [Config(isa=i, std="17") for i in MAIN3]
     cfgs += [Config(isa="A2", defs=(f"CONTRACT_OPT={v}",)) for v in (-1, 1, 2)]
     cfgs += [Config(isa="A2", defs=("FASTOR_DONT_VECTORISE",))]
+    # the odometer variants have a C++17-only spelling of their index arithmetic (constexpr find_remaining)
+    cfgs += [Config(isa="A2", std="17", defs=(f"CONTRACT_OPT={v}",)) for v in (-1, 1)]
     return cfgs
 
 
@@ -382,7 +384,7 @@ def _pairwise(tier, cfg):
         last_free = J[-1] not in I
         rs = len(I) + len(J)
         plan = []   # (type, entry, numbering, kind)
-        if cfg.std == "17":
+        if cfg.std == "17" and not opt:
             # C++17 builds: the language-gated branches (if constexpr, CONTRACT_OPT remainings); reduced pattern set
             if rs <= (5 if tier == "quick" else 6):
                 plan += [("f64", "einsum", "c", "D")]
@@ -395,6 +397,12 @@ def _pairwise(tier, cfg):
                 # CONTRACT_OPT=2 is consumed by strided_contraction.h only; pairwise einsum/contraction take the default nest
                 if rs <= 5:
                     plan += [("f64", "einsum", "c", "D"), ("f64", "contraction", "c", "D")]
+            elif cfg.std == "17":
+                # macro variant x language level: the C++17 spelling of the same nests, reduced pattern set
+                if (nest or cls in (1, 2, 3, 4)) and rs <= (5 if tier == "quick" else 6):
+                    plan += [("f64", "contraction", "c", "D")]
+                    if nest:
+                        plan += [("f64", "einsum", "c", "D")]
             elif nest or cls in (1, 2, 3, 4):
                 # these variants replace the loop nest inside extractor_contract_2: reached through contraction<> for every pattern
                 # and through einsum<> for the patterns that are not re-routed to inner/_matmul/_dyadic
@@ -586,7 +594,7 @@ def bounds(tier):
                 "canonical, D descending, contraction x D (x W where contraction<> takes another route than einsum<>); f32: W,(W2); i32: D; "
                 "single-tensor einsum/contraction: all 43 patterns up to rank 5 (f64 D,O + descending, f32/i32 D); inner: 23 shapes, outer: 24 shape "
                 "pairs per type (incl. extent-1 operands); explicit OIndex (A2 C++17): rank sums <=4 all permutations of the free labels, rank sum 5 "
-                "with <=2 free labels, single-tensor all permutations; configurations S2, A2, A5 (C++14) + A2 (C++17). " + common)
+                "with <=2 free labels, single-tensor all permutations; configurations S2, A2, A5 (C++14) + A2 (C++17) + A2 (C++17, CONTRACT_OPT=-1: contraction<> and nest einsum<> for rank sums <=5). " + common)
     return ("all 1600 patterns for ranks r0,r1<=4. S2/A2/A5 (C++14): f64 einsum D,W,(W2) on all patterns; O, descending, f32 W, i32 D and contraction D "
             "for rank sums <=7 (contraction also for every rank-8 pattern einsum<> re-routes); sparse numbering, i64 W, complex<double> D for rank sums "
             "<=6; complex<float>, i64 contraction for rank sums <=4. S0: f64 D all, W for rank sums <=7, f32/i32/descending <=6; A1: f64 D,W + f32 W "
@@ -594,7 +602,7 @@ def bounds(tier):
             "contraction) + explicit OIndex for rank sums <=5 with all permutations of the free labels (f32 and descending for rank sums <=4). A2 with "
             "CONTRACT_OPT=-1 and =1 (odometer / index-arithmetic nests inside extractor_contract_2): contraction<> on every pattern that is not an "
             "outer product (f64 D; W for rank sums<=7; W2, f32 where the last label is free) and einsum<> on nest patterns of rank sums <=6; "
-            "CONTRACT_OPT=2: rank sums <=5 (the macro does not reach these entry points). A2 + FASTOR_DONT_VECTORISE: f64 D all, W + f32 W <=6. "
+            "CONTRACT_OPT=2: rank sums <=5 (the macro does not reach these entry points). A2 C++17 with CONTRACT_OPT=-1 and =1 (constexpr spelling of the odometer arithmetic): rank sums <=6. A2 + FASTOR_DONT_VECTORISE: f64 D all, W + f32 W <=6. "
             "inner/outer: all N<=4W+1 vectors, unit-extent operands; i64 and complex<double> on S2/A2/A5. " + common)
 
 
